@@ -314,7 +314,14 @@ func cmdCheck(args []string) int {
 	}
 	if *ledgerOut != "" {
 		fams := map[string]string{}
+		vanishedFam := map[string]bool{}
+		for _, o := range vanished {
+			vanishedFam[o.ID] = true
+		}
 		for _, o := range cr.obls {
+			if vanishedFam[family(o.ID)] {
+				continue // recorded earlier, not generated now: not part of the new ledger
+			}
 			fams[family(o.ID)] = o.Kind
 		}
 		for k, v := range deadLedger {
